@@ -12,6 +12,7 @@ import (
 	"os"
 	"os/exec"
 	"reflect"
+	"strconv"
 	"strings"
 	"sync"
 	"sync/atomic"
@@ -331,6 +332,14 @@ func runForwarder(url string, h handlerScript, id string, gate func(k int)) (clo
 		}
 		rw.Header().Set("Content-Type", "application/octet-stream")
 		rw.Header().Set("X-Script", h.Name)
+		if strings.HasSuffix(h.Name, "-cl") {
+			// the backend announces the length of its response (as ReverseProxy passes it on)
+			total := 0
+			for _, n := range h.Pieces {
+				total += n
+			}
+			rw.Header().Set("Content-Length", strconv.Itoa(total))
+		}
 		rw.WriteHeader(200)
 		var werr error
 		for k := range h.Pieces {
@@ -580,9 +589,15 @@ func streamDriver(a *Args) {
 		}
 		chunkings = append(chunkings, c)
 	}
-	// (a) in process
+	// (a) in process; the last chunkings once more with an announced Content-Length (totals below and above
+	// 2 KB and 4 KB: the response is streamed all the same)
+	nPlain := len(chunkings)
+	chunkings = append(chunkings, []int{10, 10, 10}, []int{1024, 1024}, []int{683, 683, 683}, []int{1000, 1000, 1000}, []int{1, 4095}, []int{3000, 3000})
 	for i, c := range chunkings {
 		h := handlerScript{fmt.Sprintf("lock%d", i), c, i%2 == 0}
+		if i >= nPlain {
+			h = handlerScript{fmt.Sprintf("lock%d-cl", i), c, false}
+		}
 		hx.Reset(fmt.Sprintf("stream-inproc-%d", i), fmt.Sprintf("stream-inproc:%v", sizeClasses(c)))
 		obsCh := make(chan *streamObserver, 1)
 		fp := fakes.NewFakeProxy()
